@@ -31,6 +31,31 @@ class State:
         self.problems: list[tuple[str, str]] = []
 
 
+_BSP_BASE: dict = {}
+
+
+def _through_entity_lump(vmf: VMF) -> VMF:
+    import os
+    from srctools.bsp import BSP, BSP_LUMPS
+    from checks import bspgen
+    if _BSP_BASE.get('pid') != os.getpid():
+        d = os.path.join('/dev/shm', f'verif-C07-{os.getpid()}')
+        os.makedirs(d, exist_ok=True)
+        _BSP_BASE.update(pid=os.getpid(), path=os.path.join(d, 'base.bsp'))
+        with open(_BSP_BASE['path'], 'wb') as f:
+            f.write(bspgen.empty_file('v20'))
+    data = BSP.write_ent_data(vmf, False, _show_dep=False)
+    bsp = BSP(_BSP_BASE['path'])
+    bsp.lumps[BSP_LUMPS.ENTITIES].data = data
+    return bsp.ents
+
+
+def _lump_can_carry(vmf: VMF) -> bool:
+    # (the lump is ASCII, and its reader insists on a first entity spelled exactly 'worldspawn' - both are the format's
+    # preconditions, not this property's)
+    return vmf.spawn['classname'] == 'worldspawn' and all(k.isascii() and v.isascii() for e in [vmf.spawn, *vmf.entities] for k, v in e.items())
+
+
 def vmf_of(st: State, ent: Entity) -> int:
     return 0 if ent.map is st.vmfs[0] else 1
 
@@ -140,10 +165,14 @@ def apply(st: State, op: list) -> None:
         elif kind == 'spawnname':
             _, v, val = op
             st.vmfs[v].spawn['targetname'] = val
-        elif kind == 'reparse':
+        elif kind in ('reparse', 'relump'):
             v = op[1]
             old = st.vmfs[v]
-            new = VMF.parse(Keyvalues.parse(old.export(inc_version=False)))
+            if kind == 'relump':
+                # the other reader that builds a VMF: the map written as a BSP entity lump and read back through BSP.ents
+                new = _through_entity_lump(old)
+            else:
+                new = VMF.parse(Keyvalues.parse(old.export(inc_version=False)))
             st.vmfs[v] = new
             # handles continue in the parsed map: in-map entities by position, others are dropped
             pos = {id(e): i for i, e in enumerate(old.entities)}
@@ -319,6 +348,8 @@ class Model(bfs.Model):
         ops.append(['spawnclass', 0, 'WorldSpawn'])
         ops.append(['spawnname', 0, 'N'])
         ops.append(['reparse', 0])
+        if _lump_can_carry(st.vmfs[0]):
+            ops.append(['relump', 0])
         if self.rich:
             ops.append(['iter_class_remove', 0, 'a'])
             ops.append(['iter_class_reclass', 0, 'a', 'A'])
@@ -472,7 +503,7 @@ def run(ctx: core.Ctx) -> None:
     ctx.rule = (f'BFS over operation histories on two real VMF objects and <= {MAXH} entity handles: create_ent / Entity() / '
                 f'add_ent / add_ents / remove_ent / Entity.remove / set classname|targetname (mixed-case keys and values, '
                 f'empty) / update / del / pop / clear / make_unique / copy into either map / worldspawn re-class / '
-                f're-parse of the exported map / iterate an index while removing, renaming or re-classing; all histories '
+                f're-parse of the exported map / the map written as a BSP entity lump and read back through BSP.ents / iterate an index while removing, renaming or re-classing; all histories '
                 f'to depth {depth} (full alphabet) and depth {ctx.pick(4, 5)} (2 handles, no iteration ops), deduplicated on the '
                 f'canonical state. Every transition is an execution of the real code (no separate model), so '
                 f'traces_validated_against_impl = transitions. Non-trivial = a map contains at least one entity.')
